@@ -55,13 +55,13 @@ type gLink struct {
 }
 
 type owCase struct {
-	models []*gModel
-	links  []gLink
-	G, T   int
-	flags  owsim.VerifFlagSet
-	args   []string
+	models                                           []*gModel
+	links                                            []gLink
+	G, T                                             int
+	flags                                            owsim.VerifFlagSet
+	args                                             []string
 	in, out, paramFile, stateFile, tsFile, finalFile string
-	preexisting bool
+	preexisting                                      bool
 }
 
 func contains(l []string, s string) bool {
@@ -434,7 +434,10 @@ func engineOwSim(rc *RunCtx) *Outcome {
 		}
 	}
 	// (2) exactly once, before return; (3) no reload
-	type wkey struct{ file, path string; row uint }
+	type wkey struct {
+		file, path string
+		row        uint
+	}
 	writes := map[wkey]int{}
 	reads := map[wkey]int{}
 	for _, cl := range ctl.Log {
